@@ -30,6 +30,10 @@ func init() {
 	vfHarnesses["C03_step_flags"] = vfH_C03_step_flags
 	vfHarnesses["C04_step_flags"] = vfH_C04_step_flags
 	vfHarnesses["C17_step_flags"] = vfH_C17_step_flags
+	vfHarnesses["C02_step_aof"] = vfH_C02_step_aof
+	vfHarnesses["C03_step_aof"] = vfH_C03_step_aof
+	vfHarnesses["C04_step_aof"] = vfH_C04_step_aof
+	vfHarnesses["C17_step_aof"] = vfH_C17_step_aof
 }
 
 func vfH_C02_step() { vfStepWide = 0; vfLkStep(vfOC02, 2) }
@@ -47,6 +51,10 @@ func vfH_C02_step_flags() { vfStepWide = 2; vfLkStep(vfOC02, 2) }
 func vfH_C03_step_flags() { vfStepWide = 2; vfLkStep(vfOC03, 3) }
 func vfH_C04_step_flags() { vfStepWide = 2; vfLkStep(vfOC04, 3) }
 func vfH_C17_step_flags() { vfStepWide = 2; vfLkStep(vfOC17, 3) }
+func vfH_C02_step_aof()   { vfStepWide = 3; vfLkStep(vfOC02, 2) }
+func vfH_C03_step_aof()   { vfStepWide = 3; vfLkStep(vfOC03, 3) }
+func vfH_C04_step_aof()   { vfStepWide = 3; vfLkStep(vfOC04, 3) }
+func vfH_C17_step_aof()   { vfStepWide = 3; vfLkStep(vfOC17, 3) }
 
 var vfStepWide int
 
@@ -159,6 +167,10 @@ func vfPrio(w vfSnapLock) uint8 {
 }
 
 func vfLkStep(oracle int, nops int) {
+	vfHoldEFlag = 0x0200
+	if vfStepWide == 3 && vfChoice("persisted", 2) == 1 {
+		vfHoldEFlag = 0x0100 // the holders are persisted holds: their release / expiry writes records too
+	}
 	// per-run state of the oracles: a native replay runs many cases in one process
 	vfStepReqId, vfUnlockRequestedId, vfLockRequestedId = [16]byte{}, [16]byte{}, [16]byte{}
 	vfUnlockFlag, vfUnlockRcount, vfLockRcount, vfLockFlag, vfLockExpried = 0, 0, 0, 0, 0
@@ -170,6 +182,10 @@ func vfLkStep(oracle int, nops int) {
 		maxH, maxW = 5, 4
 	} else if vfStepWide == 2 {
 		profile = vfPCore | vfPMinute | vfPLongTimes
+	} else if vfStepWide == 3 {
+		// the step's LOCK may be persisted (aof-timing flags symbolic): the persistence pushes of Lock / UnLock /
+		// expiry run (records are queued on the persistence channel, which the harness does not drain)
+		maxH, maxW, profile = 3, 2, vfPCore|vfPAof
 	}
 	H := vfChoice("H", maxH)
 	W := 0
